@@ -153,7 +153,9 @@ enum Req {
 }
 #[derive(Clone, Debug, PartialEq)]
 enum Op {
-    Put { k: usize, len: usize, fill: u32 },
+    /// via: 0 raw inner store (what the ingester does), 1 wrapper put, 2 wrapper put_opts(Create),
+    /// 3 wrapper put_multipart, 4 wrapper copy, 5 wrapper rename, 6 wrapper copy_if_not_exists
+    Put { k: usize, len: usize, fill: u32, via: u8 },
     Evict(usize),
     Read(Req),
     Start(u32, Req),
@@ -270,7 +272,7 @@ fn dec_req(f: &[&str]) -> Req {
 fn encode(ops: &[Op]) -> String {
     ops.iter()
         .map(|o| match o {
-            Op::Put { k, len, fill } => format!("P {} {} {}", k, len, fill),
+            Op::Put { k, len, fill, via } => format!("P {} {} {} {}", k, len, fill, via),
             Op::Evict(k) => format!("E {}", k),
             Op::Read(q) => format!("R {}", enc_req(q)),
             Op::Start(l, q) => format!("S {} {}", l, enc_req(q)),
@@ -285,7 +287,7 @@ fn decode(s: &str) -> Vec<Op> {
         .map(|t| {
             let f: Vec<&str> = t.trim().split(' ').collect();
             match f[0] {
-                "P" => Op::Put { k: f[1].parse().unwrap(), len: f[2].parse().unwrap(), fill: f[3].parse().unwrap() },
+                "P" => Op::Put { k: f[1].parse().unwrap(), len: f[2].parse().unwrap(), fill: f[3].parse().unwrap(), via: f.get(4).and_then(|x| x.parse().ok()).unwrap_or(2) },
                 "E" => Op::Evict(f[1].parse().unwrap()),
                 "R" => Op::Read(dec_req(&f[1..])),
                 "S" => Op::Start(f[1].parse().unwrap(), dec_req(&f[2..])),
@@ -513,6 +515,27 @@ struct Parked {
     handle: tokio::task::JoinHandle<String>,
 }
 
+/// A reader that neither completed nor reached the inner store within BLOCK_MS:
+/// it waits for something else (e.g. for another reader loading the same key).
+struct Blocked {
+    index: usize, // reader index in the model
+    label: u32,
+    cid: usize, // 0 = uncontrolled (a sequential read)
+    resolved: Resolved,
+    present_at_arrival: bool,
+    handle: tokio::task::JoinHandle<String>,
+}
+
+const BLOCK_MS: u64 = 400;
+const STEP_TIMEOUT_MS: u64 = 5_000;
+const DRAIN_MS: u64 = 4_000;
+
+fn check_concurrent(bad: &mut Vec<String>, what: &str, path: &Path, got: &str, want: &str, present_at_arrival: bool) {
+    if strip_wrap(got) != want && !(strip_wrap(got) == "E1" && !present_at_arrival) {
+        bad.push(format!("{}: concurrent read of {:?} returned {} but the backing store answers {}", what, path.to_string(), got, want));
+    }
+}
+
 async fn run_case(cfg: &Config, ops: &[Op]) -> Result<Run, String> {
     let ops = normalize(ops);
     let raw: Arc<dyn ObjectStore> = Arc::new(InMemory::new());
@@ -540,6 +563,7 @@ async fn run_case(cfg: &Config, ops: &[Op]) -> Result<Run, String> {
     let mut obs_all: Vec<char> = Vec::new();
     let mut results: Vec<String> = Vec::new();
     let mut parked: Vec<Parked> = Vec::new();
+    let mut blocked: Vec<Blocked> = Vec::new();
     let mut arrivals: usize = 0; // reader index in the model = order of arrival
     let mut index_of: BTreeMap<u32, usize> = BTreeMap::new();
     let mut put_ok = 0usize;
@@ -547,15 +571,107 @@ async fn run_case(cfg: &Config, ops: &[Op]) -> Result<Run, String> {
     let mut same_key_parked = 0usize;
     let mut appeared_in_flight = 0usize;
     let mut next_cid = 1usize;
+    let mut tmp_seq = 0usize;
+    let mut synthetic_label = 1_000_000u32;
+
+    // Looks at every blocked reader once: finished -> `F`, reached the inner store -> `K` (now parked).
+    macro_rules! poll_blocked {
+        () => {{
+            let mut j = 0;
+            while j < blocked.len() {
+                let cid = blocked[j].cid;
+                if cid > 0 {
+                    let _ = tokio::time::timeout(std::time::Duration::from_millis(2), ctl.wait_for(cid)).await;
+                }
+                if blocked[j].handle.is_finished() {
+                    let b = blocked.remove(j);
+                    if cid > 0 {
+                        let _ = ctl.take_note(cid);
+                    }
+                    let got = b.handle.await.unwrap_or_else(|_| "PANIC".into());
+                    let want = issue(raw.as_ref(), &b.resolved).await;
+                    check_concurrent(&mut bad, &format!("reader {} (had to wait for another reader)", b.index), &b.resolved.path, &got, &want, b.present_at_arrival);
+                    results.push(got.clone());
+                    line.push(format!("F {}", b.index));
+                    outs.push(got);
+                } else if cid > 0 && ctl.has_pending(cid) {
+                    let b = blocked.remove(j);
+                    line.push(format!("K {}", b.index));
+                    outs.push("parked".into());
+                    parked.push(Parked { label: b.label, cid: b.cid, resolved: b.resolved, present_at_arrival: b.present_at_arrival, handle: b.handle });
+                } else {
+                    j += 1;
+                }
+            }
+        }};
+    }
+    // Lets the parked reader at `pos` perform its inner request and run to completion.
+    macro_rules! release {
+        ($pos:expr, $what:expr) => {{
+            let p = parked.remove($pos);
+            let mut guard = 0;
+            let mut hung = false;
+            loop {
+                if tokio::time::timeout(std::time::Duration::from_millis(STEP_TIMEOUT_MS), ctl.step(p.cid, Action::Proceed)).await.is_err() {
+                    hung = true;
+                    break;
+                }
+                guard += 1;
+                if !ctl.has_pending(p.cid) || guard > 8 {
+                    break;
+                }
+            }
+            let _ = ctl.take_note(p.cid);
+            let idx = index_of.get(&p.label).copied().unwrap_or(0);
+            let got = if hung {
+                p.handle.abort();
+                bad.push(format!("{}: concurrent read of {:?} did not complete within {} ms after its inner-store request was released", $what, p.resolved.path.to_string(), STEP_TIMEOUT_MS));
+                "HUNG".to_string()
+            } else {
+                p.handle.await.unwrap_or_else(|_| "PANIC".into())
+            };
+            let want = issue(raw.as_ref(), &p.resolved).await;
+            if !hung {
+                check_concurrent(&mut bad, $what, &p.resolved.path, &got, &want, p.present_at_arrival);
+            }
+            if got.starts_with("ok") && !p.present_at_arrival {
+                appeared_in_flight += 1;
+            }
+            results.push(got.clone());
+            line.push(format!("W {}", idx));
+            outs.push(got);
+        }};
+    }
 
     for (i, op) in ops.iter().enumerate() {
         match op {
-            Op::Put { k, len, fill } => {
+            Op::Put { k, len, fill, via } => {
                 let path = Path::from(KEYS[*k % KEYS.len()]);
                 let data = content(*len, *fill);
-                let r = cs
-                    .put_opts(&path, PutPayload::from(data.clone()), PutOptions { mode: PutMode::Create, ..Default::default() })
-                    .await;
+                let exists = raw.head(&path).await.is_ok();
+                // write-once: the overwriting paths are only used for keys that do not exist yet
+                let via = if exists && !matches!(*via, 2 | 6) { 2 } else { *via };
+                let payload = PutPayload::from(data.clone());
+                let tmp = Path::from(format!("tmp/upload_{}", tmp_seq));
+                tmp_seq += 1;
+                if matches!(via, 4 | 5 | 6) {
+                    raw.put(&tmp, payload.clone()).await.map_err(|e| format!("raw put of the temp object: {}", e))?;
+                }
+                let r: OsResult<()> = match via {
+                    0 => raw.put(&path, payload).await.map(|_| ()),
+                    1 => cs.put(&path, payload).await.map(|_| ()),
+                    3 => match cs.put_multipart(&path).await {
+                        Ok(mut up) => match up.put_part(payload).await {
+                            Ok(()) => up.complete().await.map(|_| ()),
+                            Err(e) => Err(e),
+                        },
+                        Err(e) => Err(e),
+                    },
+                    4 => cs.copy(&tmp, &path).await,
+                    5 => cs.rename(&tmp, &path).await,
+                    6 => cs.copy_if_not_exists(&tmp, &path).await,
+                    _ => cs.put_opts(&path, payload, PutOptions { mode: PutMode::Create, ..Default::default() }).await.map(|_| ()),
+                };
                 let hex = if data.is_empty() { "-".to_string() } else { data.iter().map(|b| format!("{:02x}", b)).collect::<String>() };
                 match r {
                     Ok(_) => {
@@ -580,21 +696,41 @@ async fn run_case(cfg: &Config, ops: &[Op]) -> Result<Run, String> {
             }
             Op::Read(q) => {
                 let (res, qs) = resolve(q, &metas);
+                let present = raw.head(&res.path).await.is_ok();
                 let before = cache.stats();
-                let got = match AssertUnwindSafe(issue(cs.as_ref(), &res)).catch_unwind().await {
-                    Ok(s) => s,
-                    Err(_) => "PANIC".to_string(),
-                };
-                let tier = tier_of(&before, &cache.stats(), q.cached_path());
-                let want = issue(raw.as_ref(), &res).await;
-                if strip_wrap(&got) != want {
-                    bad.push(format!("op {} ({}): read of {:?} through the cache returned {} but the backing store answers {}", i, qs, KEYS[q.key() % KEYS.len()], got, want));
+                let cs2 = cs.clone();
+                let res2 = res.clone();
+                let mut handle = tokio::spawn(async move {
+                    match AssertUnwindSafe(issue(cs2.as_ref(), &res2)).catch_unwind().await {
+                        Ok(s) => s,
+                        Err(_) => "PANIC".to_string(),
+                    }
+                });
+                match tokio::time::timeout(std::time::Duration::from_millis(BLOCK_MS), &mut handle).await {
+                    Ok(joined) => {
+                        let got = joined.unwrap_or_else(|_| "PANIC".into());
+                        let tier = tier_of(&before, &cache.stats(), q.cached_path());
+                        let want = issue(raw.as_ref(), &res).await;
+                        if strip_wrap(&got) != want {
+                            bad.push(format!("op {} ({}): read of {:?} through the cache returned {} but the backing store answers {}", i, qs, KEYS[q.key() % KEYS.len()], got, want));
+                        }
+                        arrivals += 1;
+                        obs_all.push(tier);
+                        results.push(got.clone());
+                        line.push(format!("R {} {}", qs, tier));
+                        outs.push(format!("{}@{}", got, tier));
+                    }
+                    Err(_) => {
+                        // waits for something (another reader holding the key?): becomes a blocked reader
+                        synthetic_label += 1;
+                        index_of.insert(synthetic_label, arrivals);
+                        blocked.push(Blocked { index: arrivals, label: synthetic_label, cid: 0, resolved: res, present_at_arrival: present, handle });
+                        arrivals += 1;
+                        obs_all.push('W');
+                        line.push(format!("S {} W", qs));
+                        outs.push("blocked".into());
+                    }
                 }
-                arrivals += 1;
-                obs_all.push(tier);
-                results.push(got.clone());
-                line.push(format!("R {} {}", qs, tier));
-                outs.push(format!("{}@{}", got, tier));
             }
             Op::Start(label, q) => {
                 let (res, qs) = resolve(q, &metas);
@@ -613,60 +749,81 @@ async fn run_case(cfg: &Config, ops: &[Op]) -> Result<Run, String> {
                     hub2.note(cid, "done".into());
                     out
                 }));
-                let at_store = ctl.wait_for(cid).await;
-                let tier = tier_of(&before, &cache.stats(), q.cached_path());
+                let arrived = tokio::time::timeout(std::time::Duration::from_millis(BLOCK_MS), ctl.wait_for(cid)).await;
                 index_of.insert(*label, arrivals);
+                let index = arrivals;
                 arrivals += 1;
-                obs_all.push(tier);
-                line.push(format!("S {} {}", qs, tier));
-                if at_store.is_some() {
-                    if parked.iter().any(|p| p.resolved.path == res.path) {
-                        same_key_parked += 1;
+                match arrived {
+                    Err(_) => {
+                        obs_all.push('W');
+                        line.push(format!("S {} W", qs));
+                        outs.push("blocked".into());
+                        blocked.push(Blocked { index, label: *label, cid, resolved: res, present_at_arrival: present, handle });
                     }
-                    parked.push(Parked { label: *label, cid, resolved: res, present_at_arrival: present, handle });
-                    parked_max = parked_max.max(parked.len());
-                    outs.push(format!("parked@{}", tier));
-                } else {
-                    let _ = ctl.take_note(cid);
-                    let got = handle.await.unwrap_or_else(|_| "PANIC".into());
-                    let want = issue(raw.as_ref(), &res).await;
-                    if strip_wrap(&got) != want && !(strip_wrap(&got) == "E1" && !present) {
-                        bad.push(format!("op {} ({}): concurrent read of {:?} answered from the cache with {} but the backing store answers {}", i, qs, KEYS[q.key() % KEYS.len()], got, want));
+                    Ok(at_store) => {
+                        let tier = tier_of(&before, &cache.stats(), q.cached_path());
+                        obs_all.push(tier);
+                        line.push(format!("S {} {}", qs, tier));
+                        if at_store.is_some() {
+                            if parked.iter().any(|p| p.resolved.path == res.path) {
+                                same_key_parked += 1;
+                            }
+                            parked.push(Parked { label: *label, cid, resolved: res, present_at_arrival: present, handle });
+                            parked_max = parked_max.max(parked.len());
+                            outs.push(format!("parked@{}", tier));
+                        } else {
+                            let _ = ctl.take_note(cid);
+                            let got = handle.await.unwrap_or_else(|_| "PANIC".into());
+                            let want = issue(raw.as_ref(), &res).await;
+                            check_concurrent(&mut bad, &format!("op {} ({})", i, qs), &res.path, &got, &want, present);
+                            results.push(got.clone());
+                            outs.push(format!("{}@{}", got, tier));
+                        }
                     }
-                    results.push(got.clone());
-                    outs.push(format!("{}@{}", got, tier));
                 }
             }
             Op::Go(label) => {
-                let Some(pos) = parked.iter().position(|p| p.label == *label) else { continue };
-                let p = parked.remove(pos);
-                let mut guard = 0;
-                loop {
-                    ctl.step(p.cid, Action::Proceed).await;
-                    guard += 1;
-                    if !ctl.has_pending(p.cid) || guard > 8 {
-                        break;
-                    }
+                if let Some(pos) = parked.iter().position(|p| p.label == *label) {
+                    release!(pos, &format!("op {} (W {})", i, label));
                 }
-                let _ = ctl.take_note(p.cid);
-                let got = p.handle.await.unwrap_or_else(|_| "PANIC".into());
-                let want = issue(raw.as_ref(), &p.resolved).await;
-                if strip_wrap(&got) != want && !(strip_wrap(&got) == "E1" && !p.present_at_arrival) {
-                    bad.push(format!("op {} (W {}): concurrent read of {} returned {} but the backing store answers {}", i, label, p.resolved.path, got, want));
-                }
-                if got.starts_with("ok") && !p.present_at_arrival {
-                    appeared_in_flight += 1;
-                }
-                results.push(got.clone());
-                line.push(format!("W {}", index_of.get(label).copied().unwrap_or(0)));
-                outs.push(got);
             }
         }
+        if !blocked.is_empty() {
+            poll_blocked!();
+        }
+    }
+    // drain: every reader still parked is released, every blocked reader gets DRAIN_MS to come through
+    let deadline = std::time::Instant::now() + std::time::Duration::from_millis(DRAIN_MS);
+    while !(parked.is_empty() && blocked.is_empty()) {
+        while !parked.is_empty() {
+            release!(0, "end of the history");
+        }
+        if blocked.is_empty() {
+            break;
+        }
+        poll_blocked!();
+        if std::time::Instant::now() > deadline {
+            break;
+        }
+        if !blocked.is_empty() && parked.is_empty() {
+            tokio::time::sleep(std::time::Duration::from_millis(10)).await;
+        }
+    }
+    for b in blocked.drain(..) {
+        b.handle.abort();
+        let want = issue(raw.as_ref(), &b.resolved).await;
+        bad.push(format!(
+            "reader {}: read of {:?} did not complete (still waiting {} ms after every other reader was released) although the backing store answers {}",
+            b.index, b.resolved.path.to_string(), DRAIN_MS, want
+        ));
+        results.push("HUNG".into());
+        line.push(format!("F {}", b.index));
+        outs.push("HUNG".into());
     }
     hub.detach();
     ctl.release_all();
     drop(cs);
-    cache.clear().await;
+    let _ = tokio::time::timeout(std::time::Duration::from_millis(3_000), cache.clear()).await;
     Ok(Run { model_line: line.join(";"), impl_out: outs.join(";"), bad, obs: obs_all, results, put_ok, parked_max, same_key_parked, appeared_in_flight })
 }
 
@@ -755,7 +912,7 @@ fn gen_req(rng: &mut Rng, keys: &[usize], lens: &BTreeMap<usize, usize>) -> Req 
 }
 
 fn gen_config(rng: &mut Rng) -> Config {
-    let l1 = *rng.pick(&[1usize, 64, 1 << 20]);
+    let l1 = *rng.pick(&[0usize, 1, 64, 1 << 20]);
     if rng.chance(1, 2) {
         Config { l1, l2: 0, dir: false }
     } else {
@@ -793,12 +950,25 @@ fn gen_case(rng: &mut Rng, report: &mut Report) -> (Config, Vec<Op>) {
             let k = *rng.pick(&keys);
             let len = gen_len(rng);
             fill += 1;
+            let via = rng.below(7) as u8;
             if lens.contains_key(&k) {
                 report.bump("op.put_existing");
             } else {
                 lens.insert(k, len);
+                // probe the key while it does not exist yet (sequentially and/or by a reader that stays in flight)
+                if rng.chance(1, 2) {
+                    ops.push(Op::Read(if rng.chance(3, 4) { Req::Get(k) } else { gen_req(rng, &[k], &lens) }));
+                    report.bump("gen.probe_before_create");
+                }
+                if rng.chance(1, 5) {
+                    label += 1;
+                    waiting.push(label);
+                    ops.push(Op::Start(label, Req::Get(k)));
+                    report.bump("gen.reader_in_flight_before_create");
+                }
+                report.bump(&format!("create.via_{}", ["raw_store", "put", "put_opts", "put_multipart", "copy", "rename", "copy_if_not_exists"][via as usize]));
             }
-            ops.push(Op::Put { k, len, fill });
+            ops.push(Op::Put { k, len, fill, via });
             report.bump("op.put");
         } else if r < 24 {
             ops.push(Op::Evict(*rng.pick(&keys)));
@@ -841,7 +1011,8 @@ fn gen_case(rng: &mut Rng, report: &mut Report) -> (Config, Vec<Op>) {
 /// Proof-derived corner cases that always run first.
 fn corpus() -> Vec<(Config, Vec<Op>)> {
     let g = |k| Op::Read(Req::Get(k));
-    let put = |k, len, fill| Op::Put { k, len, fill };
+    let put = |k, len, fill| Op::Put { k, len, fill, via: 2 };
+    let putv = |k, len, fill, via| Op::Put { k, len, fill, via };
     let plain = |k| Req::Opts { k, range: None, im: Cond::None, inm: Cond::None, md: Date::None, um: Date::None, version: false, head: false };
     let um = |k, d| Req::Opts { k, range: None, im: Cond::None, inm: Cond::None, md: Date::None, um: d, version: false, head: false };
     let md = |k, d| Req::Opts { k, range: None, im: Cond::None, inm: Cond::None, md: d, um: Date::None, version: false, head: false };
@@ -962,9 +1133,9 @@ fn main() {
         report.impl_runs += 1;
         report.case(if nontrivial(&run) { Some(&text) } else { None });
         report.bump(&format!("origin.{}", origin));
-        report.bump(&format!("cfg.l1={}.l2={}", match cfg.l1 { 1 => "tiny", 64 => "small", _ => "ample" }, if cfg.dir { match cfg.l2 { 4096 => "disk-tiny", _ => "disk" } } else { "none" }));
+        report.bump(&format!("cfg.l1={}.l2={}", match cfg.l1 { 0 => "zero", 1 => "tiny", 64 => "small", _ => "ample" }, if cfg.dir { match cfg.l2 { 4096 => "disk-tiny", _ => "disk" } } else { "none" }));
         for o in &run.obs {
-            report.bump(&format!("served.{}", match o { '1' => "L1", '2' => "L2", 'M' => "miss-fetch", 'B' => "bypass", _ => "unknown" }));
+            report.bump(&format!("served.{}", match o { '1' => "L1", '2' => "L2", 'M' => "miss-fetch", 'B' => "bypass", 'W' => "blocked-behind-another-reader", _ => "unknown" }));
         }
         for r in &run.results {
             let kind = if r.starts_with("ok") { "ok".to_string() } else { r.split('(').next().unwrap_or("E").to_string() };
